@@ -31,4 +31,9 @@ TABLES = [
     dict(opts=[("-f", 1)], missing=1),
     dict(opts=[("--file", 1)], missing=None),
     dict(opts=[("-a", 0), ("-A", 1), ("--Foo", 0), ("--foo", 1), ("-F", 0)], missing=5),
+    # the same kind of tables with many lines of handler code between the labels (a real getopt loop is hundreds of lines long): the
+    # labels lie 130 resp. 255 resp. 300 source lines apart, so their line offsets cross 255 / 256 / 512 / 1024
+    dict(opts=[("-a", 0), ("-b", 1), ("--long", 1), ("-z", 0), ("--zed", 0), ("-q", 1)], missing=None, spread=130),
+    dict(opts=[("-x", 0), ("-y", 1), ("--why", 0), ("-w", 0)], missing=2, spread=255),
+    dict(opts=[("--first", 1), ("-s", 0), ("-t", 1), ("--third", 0), ("-u", 0)], missing=None, spread=300),
 ]
